@@ -15,7 +15,7 @@
 //!   deps=<a>;<b>   report these discovered dependencies      fail      terminate with failure
 //!   partial        write the outputs even when failing       restat    leave an unchanged output alone
 //!   skip=<out>     do not write that output                  gen=<f>   copy file f over the first output
-//!   out=<text>     console output of the command (hex)
+//!   out=<text>     console output of the command (hex)     gen1=<f>  copy file f over the second output
 //! An output's content is a digest of the command line, the contents of its dirtying inputs and of
 //! the reported dependencies (deterministic, hermetic commands).
 use crate::util::*;
@@ -159,7 +159,21 @@ fn graph_dump(manifest_name: &str) -> (String, Vec<n2::verif::BuildDump>) {
 }
 
 fn refresh_graph(sh: &mut Shared) {
-    let cur = std::fs::read(&sh.manifest_name).unwrap_or_default();
+    // the manifest may include other files: re-dump whenever anything it could read has changed;
+    // cheap fingerprint = the manifest plus every *.ninja / *.in-generated file in the directory
+    let mut cur = std::fs::read(&sh.manifest_name).unwrap_or_default();
+    if let Ok(rd) = std::fs::read_dir(".") {
+        let mut names: Vec<_> = rd.filter_map(|e| e.ok()).map(|e| e.file_name()).collect();
+        names.sort();
+        for n in names {
+            let s = n.to_string_lossy().into_owned();
+            if s.ends_with(".ninja") && s != sh.manifest_name {
+                cur.extend_from_slice(s.as_bytes());
+                cur.push(0);
+                cur.extend_from_slice(&std::fs::read(&s).unwrap_or_default());
+            }
+        }
+    }
     if cur != sh.manifest_seen || sh.graphs.is_empty() {
         let (g, builds) = graph_dump(&sh.manifest_name);
         sh.graphs.push(g);
@@ -247,8 +261,10 @@ impl n2::verif::Executor for Exec {
                 if val("skip=").as_deref() == Some(o.as_str()) {
                     continue;
                 }
-                let content: Vec<u8> = match (&gen, k) {
-                    (Some(src), 0) => read_opt(src),
+                let gen1 = val("gen1=");
+                let content: Vec<u8> = match (&gen, &gen1, k) {
+                    (Some(src), _, 0) => read_opt(src),
+                    (_, Some(src), 1) => read_opt(src),
                     _ => {
                         let mut ps: Vec<&[u8]> = parts.iter().map(|p| p.as_slice()).collect();
                         ps.push(o.as_bytes());
